@@ -5,7 +5,7 @@
    keeps an element when the result is true or, for a number n, when the element is the n-th among its same-named siblings.
    The theorems are parametric in the number type and its operations (IEEE doubles in the implementation). *)
 From AHP Require Import Model.Base Model.Str Model.Attr Model.Dom Model.Search Model.Index Model.Passes Model.XPath
-     Proofs.PassesProofs Proofs.SearchProofs Proofs.XPathProofs.
+     Proofs.PassesProofs Proofs.SearchProofs Proofs.DomProofs Proofs.IndexProofs Proofs.XPathProofs.
 
 (* the three-pass evaluation of any admissible flat layout of an expression tree gives the value of the tree *)
 Theorem C14_passes_correct : forall (val op : Type) (rank : op -> nat) (app : op -> val -> val -> val), (forall o, rank o <= 2) ->
@@ -44,6 +44,15 @@ Theorem C14_numeric_when_both_numeric : forall num nadd nsub nmul ndiv nmod neqb
   ap OEq a b = VBool num (neqb x y) /\ ap ONe a b = VBool num (negb (neqb x y)) /\ ap OLt a b = VBool num (nltb x y)
   /\ ap OGt a b = VBool num (nltb y x) /\ ap OLe a b = VBool num (nleb x y) /\ ap OGe a b = VBool num (nleb y x).
 Proof. exact numeric_when_both_numeric. Qed.
+
+(* the upward axes in a well-formed document with unique uids (the C04 invariant): the parent axis yields the element the context
+   element is a child of; the ancestor axis yields exactly the elements that have the context element among their descendants *)
+Theorem C14_parent_axis : forall doc o, WF None o doc -> NoDup (uids_of doc) -> forall t p, Sub t doc -> parent_elem doc t = Some p ->
+  Sub p doc /\ In t (kids p) /\ parent (hd_ t) = Some (tuid p).
+Proof. exact parent_elem_spec. Qed.
+Theorem C14_ancestor_axis : forall doc o, WF None o doc -> NoDup (uids_of doc) -> forall t r a, Sub t doc -> find r doc = Some a ->
+  (In r (map tuid (ancestors doc (length (all_nodes doc)) t)) <-> In (tuid t) (map tuid (descendants a))).
+Proof. exact ancestors_spec. Qed.
 
 (* non-vacuity: a layout that needs all three passes, over nat as numbers *)
 Example C14_ex : let ev := XPath.eval nat Nat.add Nat.sub Nat.mul Nat.div Nat.modulo Nat.eqb Nat.ltb Nat.leb (Nat.eqb 0) (fun n => n) (fun _ => None) in
